@@ -51,7 +51,7 @@ def _sym_box(ctx, prob):
     box = []
     for i, p in enumerate(prob.parameters):
         lo, hi = ctx.real('lb%d' % i), ctx.real('ub%d' % i)
-        ctx.assume(lo < hi)
+        ctx.assume(lo <= hi)
         p['bounds'] = [lo, hi]
         box.append((lo, hi))
     return box
@@ -94,7 +94,7 @@ def constriction(args):
     def body(ctx):
         v = ctx.real('v')
         lo, hi = ctx.real('lb'), ctx.real('ub')
-        ctx.assume(lo < hi)
+        ctx.assume(lo <= hi)
         r = SW.SwarmAlgorithm.speed_constriction(v, hi, lo)
         ctx.output('v', r)
         d = (hi - lo) / 2
